@@ -147,6 +147,16 @@ func main() {
 		}
 		rn.merge(st)
 	})
+	// Slow readers of a streamed write log while its version is pruned (evict.go).
+	nStream := r.Pick(8, 120)
+	evid.Parallel(nStream, 0, func(i int) {
+		st := stats{}
+		for _, b := range backends {
+			rn.streamPruneCase(i, b, st)
+			r.Eval(1)
+		}
+		rn.merge(st)
+	})
 	rn.finish(r.Pick(30, 300))
 }
 
